@@ -22,21 +22,24 @@ namespace PSO.Serializer
 -- primitive file operations (so that "crash after k primitive operations" is expressible)
 -- ------------------------------------------------------------------------------------------------
 
-inductive FName | dump | tmp | tmp1
+inductive FName | dump | tmp | tmp1 | snap
   deriving DecidableEq, Repr
 
 structure FS where
   dump : Option Bytes := none
   tmp  : Option Bytes := none
   tmp1 : Option Bytes := none
+  /-- memory mode only: the bytes object `__incomingSnapshot` (in file mode that is the file `tmp1` itself) -/
+  snap : Option Bytes := none
   deriving DecidableEq, Repr
 
 def FS.get (fs : FS) : FName → Option Bytes
-  | .dump => fs.dump | .tmp => fs.tmp | .tmp1 => fs.tmp1
+  | .dump => fs.dump | .tmp => fs.tmp | .tmp1 => fs.tmp1 | .snap => fs.snap
 
 def FS.set (fs : FS) (f : FName) (v : Option Bytes) : FS :=
   match f with
   | .dump => { fs with dump := v } | .tmp => { fs with tmp := v } | .tmp1 => { fs with tmp1 := v }
+  | .snap => { fs with snap := v }
 
 inductive FsOp
   /-- `open(name, 'wb')`: create or truncate -/
@@ -47,6 +50,8 @@ inductive FsOp
   | close (f : FName)
   /-- `os.rename(src, dst)`: atomic; a missing source raises and changes nothing -/
   | rename (src dst : FName)
+  /-- `os.remove(name)` (a missing file raises `OSError`, which the caller ignores) -/
+  | remove (f : FName)
   deriving DecidableEq, Repr
 
 def FS.apply (fs : FS) : FsOp → FS
@@ -58,6 +63,7 @@ def FS.apply (fs : FS) : FsOp → FS
   | .rename s d => match fs.get s with
     | some c => (fs.set d (some c)).set s none
     | none => fs
+  | .remove f => fs.set f none
 
 def FS.run (fs : FS) (ops : List FsOp) : FS := ops.foldl FS.apply fs
 
@@ -110,6 +116,7 @@ structure Ser where
   fs      : FS := {}
   trans   : List (Nat × Trans) := []   -- `__transmissions` (key = destination node)
   incOpen : Bool := false          -- `__incomingTransmissionFile is not None`
+  incSnap : Bool := false          -- `__incomingSnapshot is not None` (a completely received, not yet installed snapshot)
   child   : Option Child := none
   deriving DecidableEq, Repr
 
@@ -202,29 +209,47 @@ def Ser.getTransmissionData (s : Ser) (n : Nat) : Ser × Option Chunk :=
 /-- `cancelTransmisstion(node)` -/
 def Ser.cancel (s : Ser) (n : Nat) : Ser := { s with trans := terase n s.trans }
 
-/-- primitive operations of `setTransmissionData` on an accepted chunk (file mode lines 176-202; in memory
-mode the same operations on the bytes object).  `wasOpen`: a handle of an abandoned transfer is still open
-and is closed before the file is truncated (lines 178-179). -/
-def receiveOps (wasOpen : Bool) (c : Chunk) : List FsOp :=
+/-- primitive operations of `setTransmissionData` on an accepted chunk (in memory mode the same operations on the
+bytes object).  `wasOpen`: a handle of an abandoned transfer is still open and is closed before the file is truncated.
+The last chunk only closes the file: the complete transfer stays in `<dump>.1.tmp` (memory mode: the buffer becomes
+the separate object `__incomingSnapshot`, written here as a rename to the slot `snap`) until `finishIncoming`. -/
+def receiveOps (mode : Mode) (wasOpen : Bool) (c : Chunk) : List FsOp :=
   (if c.isFirst then (if wasOpen then [.close .tmp1] else []) ++ [.openW .tmp1] else []) ++ [.write .tmp1 c.data]
-    ++ (if c.isLast then [.close .tmp1, .rename .tmp1 .dump] else [])
+    ++ (if c.isLast then [.close .tmp1] ++ (match mode with | .memory => [.rename .tmp1 .snap] | .file => []) else [])
 
 /-- the primitive operations a call `setTransmissionData(chunk)` performs (none when it is refused) -/
 def Ser.acceptOps (s : Ser) : Option Chunk → List FsOp
   | none => []
-  | some c => if !c.isFirst && !s.incOpen then [] else receiveOps s.incOpen c
+  | some c => if !c.isFirst && !s.incOpen then [] else receiveOps s.mode s.incOpen c
 
-/-- `setTransmissionData(chunk)`; the `Bool` is the return value (`True` = a complete snapshot was installed) -/
+/-- `setTransmissionData(chunk)`; the `Bool` is the return value (`True` = a complete snapshot has been received;
+it is NOT the stored snapshot yet, D70) -/
 def Ser.setTransmissionData (s : Ser) (c? : Option Chunk) : Ser × Bool :=
   match c? with
   | none => (s, false)
   | some c =>
     if !c.isFirst && !s.incOpen then (s, false) else
-    -- D66 repair (`__stopDumpChild`): before the rename of a complete incoming snapshot a running fork child of
-    -- our own, older dump is killed and reaped, so that it cannot rename its dump over the installed one
-    let stop := c.isLast && s.mode == .file && s.fork && s.pid == .child
-    ({ s with fs := s.fs.run (receiveOps s.incOpen c), incOpen := !c.isLast,
-              pid := if stop then .idle else s.pid, child := if stop then none else s.child }, c.isLast)
+    ({ s with fs := s.fs.run (receiveOps s.mode s.incOpen c), incOpen := !c.isLast,
+              incSnap := c.isLast || s.incSnap }, c.isLast)
+
+/-- where the completely received snapshot lives -/
+def Ser.snapSlot (s : Ser) : FName := match s.mode with | .memory => .snap | .file => .tmp1
+
+/-- what `deserialize(incoming=True)` reads: the received snapshot when there is one, else the stored one -/
+def Ser.incoming (s : Ser) : Option Bytes := if s.incSnap then s.fs.get s.snapSlot else s.fs.dump
+
+/-- primitive operations of `finishIncoming(accept)` -/
+def Ser.finishOps (s : Ser) (accept : Bool) : List FsOp :=
+  if !s.incSnap then [] else if accept then [.rename s.snapSlot .dump] else [.remove s.snapSlot]
+
+/-- `finishIncoming(accept)`: the received snapshot becomes the stored one (after a running fork child of an own,
+older dump was killed and reaped: D66) or is thrown away.  Returns `False` only when the rename fails. -/
+def Ser.finishIncoming (s : Ser) (accept : Bool) : Ser × Bool :=
+  if !s.incSnap then (s, true) else
+  let stop := accept && s.mode == .file && s.fork && s.pid == .child
+  ({ s with fs := s.fs.run (s.finishOps accept), incSnap := false,
+            pid := if stop then .idle else s.pid, child := if stop then none else s.child },
+   !accept || (s.fs.get s.snapSlot).isSome)
 
 /-- what `deserialize()` reads (`none` = no data / no file: the call raises) -/
 def Ser.stored (s : Ser) : Option Bytes := s.fs.dump
@@ -273,7 +298,8 @@ structure Link where
   chan : List (Option Chunk) := []
   /-- ghost: every byte string the sender's store has held -/
   held : List Bytes := []
-  /-- ghost: the receiver's store after every `setTransmissionData` that returned `True` -/
+  /-- ghost: the received snapshot (what `deserialize(incoming=True)` reads) after every `setTransmissionData` that
+  returned `True` -/
   completed : List Bytes := []
   deriving Repr
 
@@ -287,8 +313,10 @@ inductive Ev
   | burst (budget : Nat)
   /-- leader sends a snapshot message to some *other* node `n + 1` (its transmission is independent) -/
   | sendOther (n : Nat)
-  /-- the head of the channel reaches the follower's install branch -/
-  | deliver
+  /-- the head of the channel reaches the follower's install branch; when it completes a transfer,
+      `__loadDumpFile(clearJournal=True)` follows: `fin = some accept` = it calls `finishIncoming(accept)` (the
+      decision belongs to the replication core), `none` = it raised before (undecodable bytes) -/
+  | deliver (fin : Option Bool)
   /-- the connection is replaced: everything in flight is lost (deliver first what did arrive).
       `cancels` = the sender is told (`__onNodeDisconnected` / `__onNodeConnected` with the D18 repair);
       the pinned code corresponds to `cancels = false`. -/
@@ -325,14 +353,15 @@ def Link.step (l : Link) : Ev → Link
     { l with snd := s', chan := l.chan ++ cs }
   | .sendOther n =>
     { l with snd := (l.snd.getTransmissionData (n + 1)).1 }
-  | .deliver =>
+  | .deliver fin =>
     match l.chan with
     | [] => l
     | c :: rest =>
       let (r', done) := l.rcv.setTransmissionData c
-      let comp := if done then (match r'.fs.dump with | some d => d :: l.completed | none => l.completed)
+      let comp := if done then (match r'.incoming with | some d => d :: l.completed | none => l.completed)
                   else l.completed
-      { l with rcv := r', chan := rest, completed := comp }
+      let r'' := if done then (match fin with | some accept => (r'.finishIncoming accept).1 | none => r') else r'
+      { l with rcv := r'', chan := rest, completed := comp }
   | .reconnect cancels =>
     { l with chan := [], snd := if cancels then l.snd.cancel peer else l.snd }
   | .cancel => { l with snd := l.snd.cancel peer }
@@ -341,7 +370,7 @@ def Link.step (l : Link) : Ev → Link
   | .check ck => { l with snd := (l.snd.checkSerializing ck).1 }
   | .childStep => ({ l with snd := l.snd.childStep }).noteHeld
   | .sndInstall d =>
-    ({ l with snd := (l.snd.feed [some ⟨d, true, false⟩, some ⟨[], false, true⟩]).1 }).noteHeld
+    ({ l with snd := ((l.snd.feed [some ⟨d, true, false⟩, some ⟨[], false, true⟩]).1.finishIncoming true).1 }).noteHeld
   | .rcvSerialize id pieces fail => { l with rcv := (l.rcv.serialize id pieces fail).1 }
   | .rcvCheck ck => { l with rcv := (l.rcv.checkSerializing ck).1 }
   | .rcvChildStep => { l with rcv := l.rcv.childStep }
